@@ -248,6 +248,50 @@ class Ctx:
     def note(self, s):
         self.notes.append(s)
 
+    # ---- branch pruning under the current assumptions (DESIGN 4.4) -------------------
+    def enable_pruning(self):
+        """comparisons / abs / floor created from now on are simplified when the current assumptions
+        decide them (each decision is an SMT query, tagged 'prune')."""
+        if not self.sym:
+            return
+        cache = {}
+
+        def prune(cond):
+            key = (cond.hid, len(self.hyps))
+            if key in cache:
+                return cache[key]
+            res = None
+            r = smt.check_sat(self.hyps + [S.Not(cond)], timeout_ms=3000, tag="prune", want_model=False)
+            if r.status == "unsat":
+                res = True
+            else:
+                r = smt.check_sat(self.hyps + [cond], timeout_ms=3000, tag="prune", want_model=False)
+                if r.status == "unsat":
+                    res = False
+            cache[key] = res
+            return res
+
+        def floor_value(term):
+            r = smt.check_sat(self.hyps, timeout_ms=5000, tag="prune:floor-model")
+            if r.status != "sat":
+                return None
+            env = {v: r.model.get(v, Fraction(0)) for v in S.free_vars([term])}
+            try:
+                val = S.evaluate_exact([term], env)[term.hid]
+            except (S.SymError, ZeroDivisionError):
+                return None
+            n = val.numerator // val.denominator
+            lo, hi = S.const(n), S.const(n + 1)
+            pr = smt.prove(self.hyps, S.And(S.Sym("le", (lo, term), S.BOOL), S.Sym("lt", (term, hi), S.BOOL)), timeout_ms=5000, tag="prune:floor")
+            return n if pr.status == "unsat" else None
+
+        S.HOOKS.prune = prune
+        S.HOOKS.floor_value = floor_value
+
+    def disable_pruning(self):
+        S.HOOKS.prune = None
+        S.HOOKS.floor_value = None
+
 
 # =========================================================================================
 class Check:
@@ -416,6 +460,8 @@ class Check:
             print(f"INCONCLUSIVE property={self.pid} {s}")
         wall = time.time() - self.t0
         nontriv = n_claims - n_triv
+        slow = sorted(self.records, key=lambda r: -r.get("wall_s", 0))[:5]
+        self.extra["slowest_instances"] = [{"scenario": r["scenario"], "params": r["params"], "real_t": r["real_t"], "wall_s": r.get("wall_s"), "solver": {k: v for k, v in r["stats"].items() if k != "by_tag"}} for r in slow]
         ev = {
             "property_id": self.pid,
             "tier": self.tier,
@@ -529,10 +575,12 @@ def _run_task(task, seed):
     try:
         fn(ctx, **params)
     except Exception as e:
+        ctx.disable_pruning()
         rec["error"] = f"{type(e).__name__}: {e}"
         rec["traceback"] = traceback.format_exc()[-1500:]
         if os.environ.get("VERIF_DEBUG"):
             traceback.print_exc()
+    ctx.disable_pruning()
     rec["n_claims"] = len(ctx.claims)
     rec["n_trivial"] = sum(1 for c in ctx.claims if c.trivial)
     rec["claim_keys"] = [c.name for c in ctx.claims if not c.trivial]
@@ -696,3 +744,34 @@ def close_array(ctx, name, impl, ref, tol, cells=None):
         if ctx.sym and ctx.too_many_failures():
             return
         close(ctx, f"{name}[{','.join(map(str, idx))}]", impl_a[idx], ref_a[idx], tol)
+
+
+def merge_equal_radicands(ctx, roots):
+    """SMT-sweeping style lemma step: sqrt applications whose radicands are proved equal (z3) under the
+    assumptions are replaced by one representative.  Candidates are proposed by numeric simulation."""
+    if not ctx.sym:
+        return roots
+    roots = [S.lift(r) for r in roots]
+    apps = [n for n in S.topo(roots) if n.op == "app" and n.args[0] == "sqrt"]
+    if len(apps) < 2:
+        return roots
+    fv = sorted(S.free_vars([a.args[1] for a in apps]), key=lambda v: v.hid)
+    sigs = []
+    for trial in range(3):
+        env = {v: ctx.rng.uniform(0.1, 0.9) for v in fv}
+        val = S.evaluate([a.args[1] for a in apps], env)
+        sigs.append([val[a.args[1].hid] for a in apps])
+    mapping = {}
+    reps = []
+    for i, a in enumerate(apps):
+        for j in reps:
+            if all(abs(sigs[t][i] - sigs[t][j]) <= 1e-9 * max(1.0, abs(sigs[t][i])) for t in range(3)):
+                r = smt.prove(ctx.hyps, S._cmp("eq", a.args[1], apps[j].args[1]), timeout_ms=5000, tag="lemma:radicands_equal", prefer="nlsat")
+                if r.status == "unsat":
+                    mapping[a] = apps[j]
+                    break
+        else:
+            reps.append(i)
+    if not mapping:
+        return roots
+    return S.substitute(roots, mapping)
